@@ -26,6 +26,8 @@ pub fn drive(kind: &str, seed: u64, n: usize, extra: &str, sink: &mut Sink) -> u
         "logint" => drive_logint(seed, n, sink),
         "quartic" => drive_quartic(seed, n, extra, sink),
         "pwint" => drive_pwint(seed, n, extra, sink),
+        "spline" => drive_spline(seed, n, sink),
+        "linear" => drive_linear(seed, n, sink),
         "calib" => {
             drive_calib(seed, n, sink);
             0
